@@ -64,7 +64,7 @@ func main() {
 	branchMs := flag.Int("branch-ms", 3000, "timeout for feasibility queries")
 	assertMs := flag.Int("assert-ms", 20000, "timeout for obligations")
 	maxPaths := flag.Int("max-paths", 400, "path budget per harness")
-	maxInstrs := flag.Int("max-instrs", 20000000, "instruction budget per harness")
+	maxInstrs := flag.Int("max-instrs", 400000000, "instruction budget per harness")
 	unwind := flag.Int("unwind", 12, "loop unwinding bound (visits per loop header per call)")
 	split := flag.Int("split", 6, "bound on parts produced by strings.Split on symbolic input")
 	par := flag.Int("par", 5, "harnesses run in parallel")
@@ -72,12 +72,13 @@ func main() {
 	noSlice := flag.Bool("no-slice", false, "disable independence slicing of feasibility queries")
 	tags := flag.String("tags", "gosmt", "build tags for loading the harness module")
 	budget := flag.Int("harness-budget-s", 0, "wall-clock budget per harness (0 = none)")
+	thorough := flag.Bool("thorough", false, "thorough tier (harnesses may widen their bounds via verif.Thorough())")
 	verbose := flag.Bool("v", false, "verbose")
 	trace := flag.Bool("trace", false, "print fork sites")
 	flag.Parse()
 
 	res := RunResult{Pkg: *pkg, Solvers: strings.Split(*solvers, ",")}
-	cfg := RunConfig{BranchTimeoutMs: *branchMs, AssertTimeoutMs: *assertMs, MaxPaths: *maxPaths, MaxInstrs: *maxInstrs, Unwind: *unwind, Merge: !*noMerge, Slice: !*noSlice}
+	cfg := RunConfig{BranchTimeoutMs: *branchMs, AssertTimeoutMs: *assertMs, MaxPaths: *maxPaths, MaxInstrs: *maxInstrs, Unwind: *unwind, Merge: !*noMerge, Slice: !*noSlice, Thorough: *thorough}
 	res.Config = cfg
 	t0 := time.Now()
 	sh, harnesses, err := loadProgram(*dir, *pkg, *tags)
